@@ -22,6 +22,7 @@ open Verdict
 
 type tb = { idx : int; local : bool; dst : int; prev : int; ts : n; life : n; age : n option;
             hop : (n * n) option; del : bool; mdel : bool; blks : (bool * int) list; dead : bool;
+            adm : (int * bool) option;  (* flagged as administrative record: payload kind, readable by this implementation *)
             mutable accepted : bool; mutable refused : bool; mutable okpeers : int list;
             mutable lost : bool; mutable known : bool; mutable pend : bool; mutable sent : int list }
 
@@ -30,7 +31,7 @@ let fl_replicate = 1 and fl_report = 2 and fl_delete = 4 and fl_remove = 16
 let has f (_, fl) = fl land f <> 0
 
 let tb_of_s s =
-  let mk idx local dst prev ts life age hop del dead blks =
+  let mk ?(adm = None) idx local dst prev ts life age hop del dead blks =
     (* the property's reading: refused for cause only when a block of a type the node does not know
        demands the deletion; the model's: the loop of receive *)
     let blks = List.map (fun b -> match lst b with [k; f] -> (s_bool k, s_int f) | _ -> raise (Bad "block")) blks in
@@ -41,9 +42,12 @@ let tb_of_s s =
     { idx = s_int idx; local = s_bool local; dst = s_int dst; prev = s_int prev; ts = s_n ts; life = s_n life;
       age = (match lst age with [a] -> Some (s_n a) | _ -> None);
       hop = (match lst hop with [l; c] -> Some (s_n l, s_n c) | _ -> None);
-      del = pdel; mdel; blks; dead = s_bool dead; accepted = false; refused = false; okpeers = []; lost = false;
+      del = pdel; mdel; blks; dead = s_bool dead; adm; accepted = false; refused = false; okpeers = []; lost = false;
       known = false; pend = false; sent = [] } in
   match lst s with
+  | [idx; local; dst; prev; ts; life; age; hop; del; dead; blks; adm] ->
+    let adm = match lst adm with [k; rd] -> Some (s_int k, s_bool rd) | _ -> raise (Bad "administrative record") in
+    mk ~adm idx local dst prev ts life age hop del dead (lst blks)
   | [idx; local; dst; prev; ts; life; age; hop; del; dead; blks] -> mk idx local dst prev ts life age hop del dead (lst blks)
   | [idx; local; dst; prev; ts; life; age; hop; del; dead] -> mk idx local dst prev ts life age hop del dead []
   | _ -> raise (Bad "bundle description")
@@ -63,7 +67,7 @@ let stat_of_s s = match lst s with
   | [i; k; p; sl] -> { q_idx = s_int i; q_known = s_bool k; q_pend = s_bool p; q_sent = List.sort compare (List.map s_int (lst sl)) }
   | _ -> raise (Bad "status")
 
-let age_factor = ni 1000
+let age_factor = ni 1 (* UpdateBundleAge adds milliseconds since fix 1d50712 *)
 
 let show_ints l = "[" ^ String.concat "," (List.map string_of_int l) ^ "]"
 
@@ -96,7 +100,8 @@ let hist = function
         let stats = List.map stat_of_s (lst (List.nth l (nl - 2))) in
         let other = s_int (List.nth l (nl - 1)) in
         if other > 0 then tag "metadata-sends";
-        if kind <> "atreturn" then tag kind;
+        if kind = "conf" then tag (if s_int (List.nth l 2) = 1 then "conf-inspect-all" else "conf-default")
+        else if kind <> "atreturn" then tag kind;
         if kind = "atreturn" then begin
           (* schedule control: what was held back when the handler returned, and the store as the handler
              left it; the event's own record (before this one) has the store after everything had run *)
@@ -115,7 +120,7 @@ let hist = function
                                    algname !evno t.idx q.q_pend (show_ints q.q_sent) t.pend (show_ints t.sent)) :: !res
               | _ -> ()) stats
         end else
-        if kind <> "nop" then begin
+        if kind <> "nop" && kind <> "conf" then begin
           (* ---------------- the input event ---------------- *)
           let newtb = match kind with
             | "sub" | "rcv" -> let t = tb_of_s (List.nth l 2) in Hashtbl.replace tracked t.idx t; order := !order @ [t]; Some t
@@ -155,6 +160,12 @@ let hist = function
                  | [] -> () in
                adj t.blks
              end;
+             (* a bundle in transit is carried whatever its payload is: the administrative-record flag and a
+                payload the node cannot read are no cause for refusal (the rules below apply unchanged) *)
+             (match t.adm with
+              | Some (_, rd) when t.dst <> 0 ->
+                tag (if rd then "adm-in-transit-readable" else "adm-in-transit-unreadable")
+              | _ -> ());
              if t.ts = N0 then tag "zero-time" else tag "timestamped";
              if t.dst = 0 then tag "local-destination"
            | None -> ());
@@ -192,6 +203,20 @@ let hist = function
                 else if kind = "restart" then pf "scf.restart.lost" d
                 else pf ("scf.lost." ^ kind) d
               end) !order;
+          (* the size of the backlog a retry pass has to work through *)
+          if kind = "up" || kind = "tickp" then begin
+            let np = List.length (List.filter (fun (_, _, kp, _) -> kp) before) in
+            List.iter (fun b -> if np >= b then tag (Printf.sprintf "backlog-%d+" b)) [100; 129; 257; 500; 1000]
+          end;
+          (* a retry pass: a waiting bundle whose destination is a connected peer is transmitted to it (however
+             many other bundles are waiting) *)
+          if kind = "tickp" then
+            List.iter (fun (t, obl, kp, _) ->
+                if obl && kp && List.mem t.dst !peers && t.prev <> t.dst then begin
+                  tag "direct-on-retry";
+                  if not (List.exists (fun s -> s.sidx = t.idx && s.sp = t.dst) sends) then
+                    pf "scf.direct.not-retried" (Printf.sprintf "%s: bundle %d for the connected peer n%d was not transmitted in the retry pass (event %d)" algname t.idx t.dst !evno)
+                end) before;
           if kind = "up" then
             List.iter (fun (t, obl, kp, okp) ->
                 let sent_to_p = List.exists (fun s -> s.sidx = t.idx && s.sp = upp) sends in
